@@ -1,7 +1,7 @@
 SPEC_PART = dict(
     props_file="C11_bloom",
     legs=[dict(family="bloom", focus="codec", oracles=["prop_roundtrip", "prop_ok"], profiles=["debug", "release"],
-               n_quick=120, n_thorough=1500)],
+               n_quick=120, n_thorough=1500, panic_is_violation=True)],
     trusted=["bloom codec model (Model/Bloom.v: bf_serialize / bf_parse_header / bf_deserialize) written by hand from bloom/sketch.rs; "
              "tied by byte-for-byte comparison of serialize() output and of deserialize() outcomes"],
     assumptions=["bloom: filters built by BloomFilterBuilder within its documented ranges (size_ok), operands of union/intersect compatible"],
